@@ -226,6 +226,39 @@ func sameParamField(a, b ssa.Value) bool {
 	return pa != nil && pa == pb && fa == fb
 }
 
+// canonPath: the (parameter, field path) v denotes, followed through the
+// parameters of helper scopes to the value the owner passed in (by value or by
+// pointer).
+func canonPath(v ssa.Value, sub Subst) (*ssa.Parameter, string) {
+	path := ""
+	for i := 0; i < 6; i++ {
+		pm, p := paramFieldPath(v)
+		if pm == nil {
+			return nil, ""
+		}
+		switch {
+		case path == "":
+			path = p
+		case p != "":
+			path = p + "." + path
+		}
+		a, ok := sub[pm]
+		if !ok || a == ssa.Value(pm) {
+			return pm, path
+		}
+		v = a
+	}
+	return nil, ""
+}
+
+// samePathX: a (seen in a scope with substitution sa) and b (sb) denote the
+// same field of the same parameter of the owner.
+func samePathX(a ssa.Value, sa Subst, b ssa.Value, sb Subst) bool {
+	pa, fa := canonPath(a, sa)
+	pb, fb := canonPath(b, sb)
+	return pa != nil && pa == pb && fa == fb
+}
+
 // paramFieldPath: v is (a load of) field path F of parameter P (struct passed
 // by value, possibly spilled to a local).
 func paramFieldPath(v ssa.Value) (*ssa.Parameter, string) {
@@ -597,34 +630,56 @@ func ruleV4(c *Ctx, id string) {
 			}
 		}
 		if !ok {
-			// dominating guard: count <= len(data)
-			sc := stripConv(cnt)
-			g := guardedBy(cs.Caller, cs.Instr.Block(), func(cd Cond) (bool, bool) {
-				if cd.X == nil || cd.Y == nil {
-					return false, false
+			// dominating guard: count <= len(data), in the caller, in a helper whose answer it tests, or above the
+			// call of the private helper that holds the Write
+			cntV := stripConv(cnt)
+			owner := ownerOf(cs.Caller)
+			oscopes := scopesOf(owner)
+			csc := Scope{Fn: cs.Caller, S: Subst{}}
+			for _, s2 := range oscopes {
+				if s2.Fn == cs.Caller {
+					csc = s2
 				}
-				op, a, b := cd.Op, cd.X, cd.Y
+			}
+			g := guardedUp(oscopes, csc, cs.Instr.Block(), func(sub Subst) func(Cond) (bool, bool) {
 				same := func(p ssa.Value) bool {
 					p = stripConv(p)
-					return p == sc || sameParamField(p, sc)
+					return p == cntV || sameParamField(p, cntV) || samePathX(p, sub, cntV, csc.S)
 				}
-				if isLenOf(a) && same(b) {
-					op, a, b = flipOp(op), b, a
+				lenOf := func(v ssa.Value) bool {
+					if isLenOf(v) {
+						return true
+					}
+					cl, isC := stripConv(v).(*ssa.Call)
+					if !isC {
+						return false
+					}
+					bi, isB := cl.Call.Value.(*ssa.Builtin)
+					return isB && bi.Name() == "len" && samePathX(cl.Call.Args[0], sub, dat, csc.S)
 				}
-				if !same(a) || !isLenOf(b) {
+				return func(cd Cond) (bool, bool) {
+					if cd.X == nil || cd.Y == nil {
+						return false, false
+					}
+					op, a, b := cd.Op, cd.X, cd.Y
+					if lenOf(a) && same(b) {
+						op, a, b = flipOp(op), b, a
+					}
+					if !same(a) || !lenOf(b) {
+						return false, false
+					}
+					switch op {
+					case token.GTR: // count > len rejected
+						return true, false
+					case token.LEQ:
+						return true, true
+					case token.NEQ:
+						return true, false
+					case token.EQL:
+						return true, true
+					}
 					return false, false
 				}
-				switch op {
-				case token.GTR: // count > len rejected
-					return true, false
-				case token.LEQ:
-					return true, true
-				case token.NEQ:
-					return true, false
-				case token.EQL:
-					return true, true
-				}
-				return false, false
 			})
 			if g {
 				ok, why = true, "dominated by a test of the count against len(data)"
@@ -928,24 +983,30 @@ func ruleKind(c *Ctx, id string) {
 		return false
 	}
 	fromHandle := func(v ssa.Value) bool { return fromHandleD(v, 0) }
-	kindGuard := func(fn *ssa.Function, at *ssa.BasicBlock, subj ssa.Value) bool {
-		return guardedBy(fn, at, func(cd Cond) (bool, bool) {
-			n, fl, base, _ := loadedField(cd.X)
-			k, isk := constInt(cd.Y)
-			if n != V.Inode || fl != "Kind" || !isk || k != reg || base != stripConv(subj) {
+	kindM := func(top ssa.Value) CondMatcherX {
+		return func(sub Subst) func(Cond) (bool, bool) {
+			return func(cd Cond) (bool, bool) {
+				if cd.X == nil || cd.Y == nil {
+					return false, false
+				}
+				n, fl, base, _ := loadedFieldS(cd.X, sub)
+				k, isk := constInt(cd.Y)
+				if n != V.Inode || fl != "Kind" || !isk || k != reg || sub.resolve(stripConv(base)) != top {
+					return false, false
+				}
+				switch cd.Op {
+				case token.EQL:
+					return true, true
+				case token.NEQ:
+					return true, false
+				}
 				return false, false
 			}
-			switch cd.Op {
-			case token.EQL:
-				return true, true
-			case token.NEQ:
-				return true, false
-			}
-			return false, false
-		})
+		}
 	}
 	for _, h := range V.NfsProcs {
-		for _, sc := range scopesOf(h) {
+		hScopes := scopesOf(h)
+		for _, sc := range hScopes {
 			for _, call := range P.CallsIn(sc.Fn, funcIs(V.Resize, V.InodeWrite)) {
 				recv := recvOf(call)
 				top := sc.S.resolve(recv)
@@ -953,10 +1014,7 @@ func ruleKind(c *Ctx, id string) {
 					continue
 				}
 				R.Analysed[FuncName(h)] = true
-				ok := kindGuard(sc.Fn, call.Block(), recv)
-				if !ok && sc.Via != nil {
-					ok = kindGuard(sc.Via.Parent(), sc.Via.Block(), top)
-				}
+				ok := guardedUp(hScopes, sc, call.Block(), kindM(stripConv(top)))
 				what := staticCallee(call).Name()
 				R.Check(ok, id, fmt.Sprintf("%s|%s on a handle's inode is for regular files only", h.Name(), what), P.Pos(call.Pos()), "Inode."+what+" on an inode obtained from the client's handle is dominated by Kind == NF3REG", "guarded", "a client can set the size / content of a directory or symlink through its handle: a truncated directory crashes the next scan in the entry decoder (with the directory locked) and orphans its entries")
 			}
